@@ -227,10 +227,22 @@ def pad_path(ctx):
     obs.append(Ob(r, "pad-loop", ok, "exactly size_left further pads follow, from one loop", site=site))
     # 253-state algorithm: fold the loop body's pushed value for positions 1..2400
     body = None
+    counters = {}
     for m in T.exprs(b["body"], "Match"):
         fl = T.for_loop_parts(m)
         if fl:
             body = fl[2]
+    if body is None:
+        # `while remaining > 0 { ..; remaining -= 1 }`: the body of the counting loop; its counter is just some positive number
+        for lp in T.exprs(b["body"], "Loop"):
+            wp = T.while_parts(lp)
+            if wp and body is None:
+                body = wp[1]
+                for n in T.walk(body):
+                    if n.get("k") == "AssignOp":
+                        tgt = T.strip(n["lhs"])
+                        if tgt.get("k") == "Var":
+                            counters[tgt["name"]] = 1000
     bad = None
     n = 0
     if body is not None:
@@ -241,13 +253,12 @@ def pad_path(ctx):
                 cc = T.canon(T.callee_of(c))
                 if cc.endswith("Vec::len"):
                     return L
-                if cc.split("::")[-1] == "push":
-                    sink.append(folder.fold(c["args"][1]))
+                if T.sink_call(folder, c, sink):
                     return None
                 return NotImplemented
             try:
                 selfn = b["params"][0]["pat"]["name"] if b["params"] and b["params"][0].get("pat", {}).get("k") == "Bind" else "self"
-                T.Folder(f, env={selfn: "SELF"}, on_call=on_call, effects=True, local_calls=2).fold(body)
+                T.Folder(f, env=dict(counters, **{selfn: "SELF"}), on_call=on_call, effects=True, local_calls=2).fold(body)
             except T.Trap as ex:
                 sink = "trap " + str(ex)
             except T.Undecidable as ex:
